@@ -242,7 +242,7 @@ theorem runFwd_n_le (sem : LeafSem R) (nan : R) (actionOf : ActionOf R) (steps :
   induction steps generalizing s k with
   | nil => exact ⟨k, by simp [runFwd, hk], Nat.le_refl _⟩
   | cons step rest ih =>
-    rw [runFwd]
+    simp only [runFwd]
     split
     · exact ih s k hk
     · have h : ∀ cols data m, ∃ k1, (s.record cols data m).n = some k1 ∧ k1 ≤ k := by
